@@ -1,6 +1,9 @@
 import FitProps.LinkLemmasInteg
+import FitProps.LinkLemmasLoop
+import FitProps.LinkLemmasAcct
 import FitProps.C04
 import FitProps.C08
+import FitModel.Generated.DecApiStdFactory
 /-!
 # Links between the models of the decoder
 
@@ -114,5 +117,158 @@ theorem Link_C04_truncation_any_reader (f : List Nat) (hf : Integrity.IsEncoderO
 /-- non-vacuity: the sample file of C04 cut to 20 bytes, delivered one byte at a time -/
 example : Integrity.IsEncoderOutput14 C04.sampleFit ∧ Clean ((C04.sampleFit.take 20).map fun b => ⟨[b], none⟩) := by
   decide +kernel
+
+/-! ## (D) → (C): the API-level results are a function of what the reader-client model observes -/
+
+open Fit.DecApi in
+/-- **(C) = apiOf ∘ (D).** For EVERY byte stream (bytes < 256, below 4 GiB), every option combination (checksum, component
+expansion, listeners, broadcast-only), every fuel and every factory in the common domain — acyclic components (`FacOK`, the
+contract of `decoder.Factory`), valid base types (`facBtOK`), the three fields of `field_description` as in the profile
+(`facFdOK`: (D) hard-codes them, its tie runs the standard factory) — the results of the `Decode()` calls of
+`for dec.Next() { fit, err := dec.Decode(); if err != nil { break } }` on the API model (C) — returned FIT (header, messages with
+decoded VALUES, developer fields, expanded components, CRC) or error class, and the listener calls during each (the reserved
+byte of definitions zeroed: (D) does not observe it) — are exactly what `apiOf` rebuilds from the outcome of the
+reader-client model (D) on the exact-n reader: nothing of the byte stream enters but through (D)'s events (headers, per
+message header byte / definition / bytes of each field and developer field, CRCs, error class). -/
+theorem Link_decprog_eq_api (o : Opts) (bs : List Nat) (fuel : Nat) (hb : DecApi.IsBytes bs) (hlen : bs.length < 4294967296)
+    (hfac : FacOK o.fac) (hbt : facBtOK o.fac = true) (hfd : facFdOK o.fac = true) :
+    normCalls (apiLoop fuel (Api.fresh o bs)) = apiOf o (runExact (DecProg.decodeLoop o.chk fuel true []) bs) := by
+  have := loop_link o hfac hbt hfd fuel (Api.fresh o bs) bs true [] [] (St.fresh o []) rfl rfl hb hlen rfl rfl rfl rfl
+  simpa using this.symm
+
+theorem apiOf_merge (o : DecApi.Opts) (out : DecProg.Out) : apiOf o out.merge = apiOf o out := by
+  unfold apiOf DecProg.Out.merge
+  cases h : out.status with
+  | none => simp
+  | some e => cases e <;> simp [DecProg.Err.merge, errC]
+
+open Fit.DecApi in
+/-- **CHUNK INDEPENDENCE AT API LEVEL (C08 ∘ link).** Whatever clean schedule delivers the stream (any partition into short
+reads, down to one byte at a time, EOF with or after the last bytes) and whatever the read-buffer size, the decoder over
+the read buffer does not panic and what its `Decode()` calls return — messages WITH VALUES, errors, listener calls — as
+rebuilt from its run is what the API model (C) returns on the bytes: C03 / C07's object under every fragmentation. -/
+theorem Link_chunk_indep_api (o : Opts) (s : Sched) (size : Int) (fuel : Nat) (hs : Clean s) (hb : ReadBuffer.IsBytes (bytesOf s))
+    (hlen : (bytesOf s).length < 4294967296) (hfac : FacOK o.fac) (hbt : facBtOK o.fac = true) (hfd : facFdOK o.fac = true) :
+    ∃ out, C08.decodeOver o.chk fuel s size = .done out ∧
+      apiOf o out = normCalls (apiLoop fuel (Api.fresh o (bytesOf s))) := by
+  obtain ⟨out, e, m, _⟩ := C08.decodeOver_exact o.chk fuel s size hs hb
+  refine ⟨out, e, ?_⟩
+  rw [← apiOf_merge, m, apiOf_merge]
+  exact (Link_decprog_eq_api o _ fuel hb hlen hfac hbt hfd).symm
+
+open Fit.DecApi in
+/-- … hence any two clean fragmentations and buffer sizes give the same API-level results -/
+theorem Link_chunk_indep_api_two (o : Opts) (s₁ s₂ : Sched) (size₁ size₂ : Int) (fuel : Nat) (h₁ : Clean s₁) (h₂ : Clean s₂)
+    (hb : ReadBuffer.IsBytes (bytesOf s₁)) (heq : bytesOf s₁ = bytesOf s₂) (hlen : (bytesOf s₁).length < 4294967296)
+    (hfac : FacOK o.fac) (hbt : facBtOK o.fac = true) (hfd : facFdOK o.fac = true) :
+    ∃ o₁ o₂, C08.decodeOver o.chk fuel s₁ size₁ = .done o₁ ∧ C08.decodeOver o.chk fuel s₂ size₂ = .done o₂ ∧
+      apiOf o o₁ = apiOf o o₂ := by
+  obtain ⟨o₁, e₁, m₁⟩ := Link_chunk_indep_api o s₁ size₁ fuel h₁ hb hlen hfac hbt hfd
+  obtain ⟨o₂, e₂, m₂⟩ := Link_chunk_indep_api o s₂ size₂ fuel h₂ (heq ▸ hb) (heq ▸ hlen) hfac hbt hfd
+  exact ⟨o₁, o₂, e₁, e₂, by rw [m₁, m₂, heq]⟩
+
+/-- `factory.StandardFactory()` as the decoder reads it with component expansion off (the regenerated table the family
+`decapi` runs with `f:std`) -/
+def stdFactory : DecApi.Factory :=
+  Fit.Gen.DecApi.stdFactoryRaw.map fun (m, n, bt, fl) =>
+    ⟨m, n, ⟨true, bt, fl / 2 % 2 == 1, fl % 2 == 1, fl / 4 % 2 == 1, []⟩⟩
+
+/-- **the standard factory is in the common domain** (re-checked against the regenerated table on every run) -/
+theorem Link_stdFactory_ok : facFdOK stdFactory = true ∧ facBtOK stdFactory = true ∧ DecApi.FacOK stdFactory := by
+  refine ⟨by decide +kernel, by decide +kernel, ⟨fun _ _ => 0, fun _ _ => (by decide : (0 : Nat) < 256), ?_⟩⟩
+  intro e he c hc
+  simp only [stdFactory, List.mem_map] at he
+  obtain ⟨x, _, rfl⟩ := he
+  simp at hc
+
+/-- non-vacuity: the hypotheses of `Link_decprog_eq_api` are met by the standard factory, every option and the sample file of
+C04 (file_id and a record); there the loop returns one FIT with two messages -/
+example : (∀ b ∈ C04.sampleFit, b < 256) ∧ C04.sampleFit.length < 4294967296 ∧
+    (apiLoop 46 (DecApi.Api.fresh { fac := stdFactory } C04.sampleFit)).map (fun p => match p.1 with
+      | .fit f => some f.msgs.length | _ => none) = [some 2] := by decide +kernel
+
+/-! ## (B) ↔ (C): `Integrity` against the API model -/
+
+open Fit.DecApi in
+/-- **(C) = (B), CheckIntegrity.** For every byte string and every option combination, `CheckIntegrity()` on a new decoder of
+the API model (C) returns the verdict and the count of valid leading sequences of `Integrity.checkIntegrity` — the
+object of C04's theorems. -/
+theorem Link_integrity_eq_api_check (o : Opts) (bs : List Nat) (hb : DecApi.IsBytes bs) :
+    (DecApi.step (Api.fresh o bs) .checkIntegrity).2.1 = ciOut (Integrity.checkIntegrity bs) := by
+  have h := ciLoop_eq (fuelOf (St.fresh o bs)) true 0 { (St.fresh o bs) with o := { o with chk := true } }
+    (by simp [fuelOf, St.fresh]) hb rfl rfl rfl rfl rfl (by simp)
+  show (stepCheckIntegrity (Api.fresh o bs)).2.1 = _
+  unfold stepCheckIntegrity
+  simp only [Api.fresh, St.fresh] at h ⊢
+  have hn : ((0 : Nat) == 0) = true := rfl
+  simp only [hn, h]
+  unfold Integrity.checkIntegrity
+  simp only [fuelOf]
+  cases Integrity.checkLoop (bs.length + 1) 0 bs with
+  | ok n => rfl
+  | err e n => rfl
+
+open Fit.DecApi in
+/-- **(C) = (B), the decode loop** (by composition of (B) = (D) and (C) = apiOf ∘ (D)): how many `Decode()` calls of the loop
+return a FIT and the error class of the one that fails are the sequence count and error class of `Integrity.decodeAll`. -/
+theorem Link_integrity_eq_api_decode (o : Opts) (bs : List Nat) (hb : DecApi.IsBytes bs) (hlen : bs.length < 4294967296)
+    (hfac : FacOK o.fac) (hbt : facBtOK o.fac = true) (hfd : facFdOK o.fac = true) :
+    apiSummary (apiLoop (bs.length + 1) (Api.fresh o bs)) = dres (Integrity.decodeAll o.chk bs) := by
+  rw [← apiSummary_norm, Link_decprog_eq_api o bs _ hb hlen hfac hbt hfd, apiSummary_apiOf,
+    ← Link_integrity_eq_decprog_decodeAll]
+  unfold summary
+  cases h : (runExact (DecProg.decodeLoop o.chk (bs.length + 1) true []) bs).status with
+  | none => rfl
+  | some e => simp only [Option.map_some, dres, errC_eq]
+
+/-- rejection as the API model (C) sees it: `CheckIntegrity` reports an error, and the `Next`/`Decode` loop with checksums on
+ends with a `Decode()` that returns an error -/
+def RejectedByApi (o : DecApi.Opts) (bs : List Nat) : Prop :=
+  (∃ n e, (DecApi.step (DecApi.Api.fresh o bs) .checkIntegrity).2.1 = .integrity n (some e)) ∧
+  (∃ e, (apiSummary (apiLoop (bs.length + 1) (DecApi.Api.fresh o bs))).2 = some e)
+
+open Fit.DecApi in
+/-- **C04 transfers to (C).** What (B) rejects is rejected by the API: C04's conclusions are statements about (C)'s
+`CheckIntegrity` and `Decode`. -/
+theorem Link_rejected_api (o : Opts) (bs : List Nat) (hchk : o.chk = true) (hb : DecApi.IsBytes bs) (hlen : bs.length < 4294967296)
+    (hfac : FacOK o.fac) (hbt : facBtOK o.fac = true) (hfd : facFdOK o.fac = true) (h : C04.Rejected bs) : RejectedByApi o bs := by
+  constructor
+  · rw [Link_integrity_eq_api_check o bs hb]
+    cases hc : Integrity.checkIntegrity bs with
+    | ok n => exact absurd hc (h.1 n)
+    | err e n => exact ⟨n, errBC e, rfl⟩
+  · rw [Link_integrity_eq_api_decode o bs hb hlen hfac hbt hfd, hchk]
+    cases hd : Integrity.decodeAll true bs with
+    | ok n m => exact absurd hd (h.2.2 n m)
+    | err e n => exact ⟨errBC e, rfl⟩
+
+open Fit.DecApi in
+/-- **C04_burst for the API model:** a burst of ≤ 16 bits in the records or the CRC of an encoder output makes (C)'s
+`CheckIntegrity` report an error and its checksummed decode loop fail — for every factory of the common domain and every
+other option -/
+theorem Link_C04_burst_api (o : Opts) (hchk : o.chk = true) (hfac : FacOK o.fac) (hbt : facBtOK o.fac = true)
+    (hfd : facFdOK o.fac = true) (f e : List Nat) (hf : Integrity.IsEncoderOutput14 f) (he : Fit.Crc.Bytes e)
+    (hl : e.length = f.length - 14) (hb : Fit.Crc.BurstWithin16 e) (hlen : f.length < 4294967296) :
+    RejectedByApi o (C04.corrupt f e) := by
+  have hbytes : DecApi.IsBytes (C04.corrupt f e) := by
+    intro x hx
+    unfold C04.corrupt at hx
+    rcases List.mem_append.mp hx with h | h
+    · exact hf.1 x (List.mem_of_mem_take h)
+    · exact Fit.Crc.xorL_bytes _ _ (fun y hy => hf.1 y (List.mem_of_mem_drop hy)) he x h
+  have hlen' : (C04.corrupt f e).length < 4294967296 := by
+    unfold C04.corrupt
+    simp only [List.length_append, List.length_take]
+    have := Fit.Crc.xorL_length (f.drop 14) e (by simp [hl])
+    rw [this, List.length_drop]; omega
+  exact Link_rejected_api o _ hchk hbytes hlen' hfac hbt hfd (C04.C04_burst f e hf he hl hb)
+
+open Fit.DecApi in
+/-- **C04_truncation for the API model** -/
+theorem Link_C04_truncation_api (o : Opts) (hchk : o.chk = true) (hfac : FacOK o.fac) (hbt : facBtOK o.fac = true)
+    (hfd : facFdOK o.fac = true) (f : List Nat) (hf : Integrity.IsEncoderOutput14 f) (k : Nat) (hk : k < f.length)
+    (hlen : f.length < 4294967296) : RejectedByApi o (f.take k) :=
+  Link_rejected_api o _ hchk (fun x hx => hf.1 x (List.mem_of_mem_take hx)) (by simp; omega) hfac hbt hfd
+    (C04.C04_truncation f hf k hk)
 
 end Fit.Links
